@@ -1,0 +1,47 @@
+//go:build verif
+// +build verif
+
+// Contracts for the anko command (C18), read by /verif/engine (govc). Comment-only file: it adds no code.
+
+package main
+
+// toolLines: number of lines the tool itself has written to standard output (what the script prints is the script's)
+//@ ghost var toolLines int local
+// the command line after flag parsing (flag.Args())
+//@ spec fun flagArgsV() []string
+
+//@ func parseFlags
+//@ props C18
+//@ modifies *
+//@ ensures [C18] dashE: flagExecute != "" ==> args == flagArgsV()
+//@ ensures [C18] fileArg: flagExecute == "" && len(flagArgsV()) >= 1 ==> len(args) == len(flagArgsV()) - 1
+
+//@ func setupEnv
+//@ props C18
+//@ traced args -> e
+//@ modifies *
+//@ ensures [C18] env: e != nil
+//@ callsite core.Import 0 [C18] sameenv: arg0 == e && e != nil
+
+//@ func runNonInteractive
+//@ props C18
+//@ traced flagExecute -> result
+//@ requires e != nil
+//@ modifies *
+//@ ensures [C18] codes: result == 0 || result == 2 || result == 4
+//@ ensures [C18] ok: result == 0 ==> ncalls() == 1 && res(0) == nil && toolLines == old(toolLines)
+//@ ensures [C18] runerr: result == 4 ==> ncalls() == 1 && res(0) != nil && toolLines == old(toolLines) + 1
+//@ ensures [C18] readerr: result == 2 ==> ncalls() == 0 && toolLines == old(toolLines) + 1 && old(flagExecute) == ""
+//@ ensures [C18] dashE: old(flagExecute) != "" ==> ncalls() == 1 && arg(0) == old(flagExecute)
+//@ callsite vm.Execute 0 [C18] sameenv: arg0 == e && arg1 == nil
+
+//@ func runInteractive
+//@ props C18
+//@ traced flagExecute -> result
+//@ modifies *
+
+//@ func main
+//@ props C18
+//@ modifies *
+//@ callsite os.Exit * [C18] exitcode: ncalls() == 2 && calleeIs(0, "setupEnv") && arg0 == res(1)
+//@ callsite runInteractive * [C18] interactive: flagExecute == ""
